@@ -6,9 +6,13 @@
                                       -> observation [code sub bid retry' cross ecode]
                 | [1 sub id b]        SetAvail(b) on backend id of sub-cluster sub     -> observation []
                 | [2 sub id n]        connNum := n                                      -> observation []
-   output: list of observations *)
+   output: list of observations
+         | [9 wlc conf ops]   ONE BalanceRR with slow start: Init(conf), conf = [[id w] ...], Balance(WrrSmooth) (wlc = 0) or
+           Balance(WlcSmooth) (wlc = 1); ops as in RunC01.v ([0 k] picks, [1 conf] Update, [2 id b] SetAvail,
+           [3 t] SetSlowStart, [4 id e] clock seam, [5 id] SetRestart(true)); output: per-op lists of picked ids (-1 = error) *)
 From Coq Require Import List ZArith Bool.
 From Bfe Require Import lib.Val model.Swrr model.Wlc model.Sticky model.Gslb.
+From Bfe Require run.RunC01.
 Import ListNotations.
 Open Scope Z_scope.
 
@@ -56,17 +60,36 @@ Definition dec_obs (v : val) : option (option obs) :=
 Definition dec_out (v : val) : option (list (option obs)) :=
   match v with VL l => all_some (map dec_obs l) | _ => None end.
 
+Definition dec9 (v : val) : option (bool * list (Z * Z) * list op) :=
+  match v with
+  | VL [VZ 9; VZ m; c; VL ops] =>
+    match RunC01.dec_conf c, all_some (map RunC01.dec_op ops) with
+    | Some conf, Some os => Some (negb (m =? 0), conf, os)
+    | _, _ => None
+    end
+  | _ => None
+  end.
+Definition dec_out9 (v : val) : option (list (list Z)) :=
+  match v with VL l => all_some (map as_LZ l) | _ => None end.
+
 Definition run_C03 (i : val) : val :=
   match dec_in i with
   | Some (p, conf, ops) => VL (map enc_obs (grun p (g_init conf) ops))
-  | None => VErr 0
+  | None => match dec9 i with
+            | Some (wlc, conf, ops) => VL (map vLZ (run2 (bal_of wlc) (0, init2 conf) ops))
+            | None => VErr 0
+            end
   end.
 (* membership / trace validation: each observation is the model's result for SOME random index of
    randomSelectExclude; the model state continues from that choice *)
 Definition agree_C03 (i o : val) : bool :=
   match dec_in i, dec_out o with
   | Some (p, conf, ops), Some os => gcheck p (g_init conf) ops os
-  | _, _ => false
+  | Some _, None => false
+  | None, _ => match dec9 i, dec_out9 o with
+               | Some (wlc, conf, ops), Some obs => check2 (fol_of wlc) (0, init2 conf) ops obs
+               | _, _ => false
+               end
   end.
 (* the property: only eligible backends of non-blackhole sub-clusters are returned, the first choice has positive
    weight, blackhole is rejected, and the error/no-error outcome is exactly the one determined by the existence of
@@ -74,6 +97,11 @@ Definition agree_C03 (i o : val) : bool :=
 Definition prop_C03 (i o : val) : bool :=
   match dec_in i, dec_out o with
   | Some (p, conf, ops), Some os => gspec p (p_init conf) ops os
-  | _, _ => false
+  | Some _, None => false
+  (* kind 9: every pick is an available backend with positive effective and configured weight; error iff none *)
+  | None, _ => match dec9 i, dec_out9 o with
+               | Some (wlc, conf, ops), Some obs => spec3 (0, init2 conf) ops obs
+               | _, _ => false
+               end
   end.
 Definition kf_C03 (i : val) : Z := 0.
